@@ -421,14 +421,16 @@ pub fn gen_opt_tails(rng: &mut Rng) -> AstG {
 /// holds trees over different tokenisations of the same input; every one of them must still carry the whole text.
 pub fn gen_lex_amb(rng: &mut Rng) -> AstG {
     let mk = |i: usize| ATerm { name: POOL[i].0.into(), lit: POOL[i].1.map(|s| s.to_string()), regex: POOL[i].2.into(), prefix: POOL[i].3.into() };
-    let terms: Vec<ATerm> = vec![mk(1), ATerm { name: "Two".into(), lit: None, regex: "\\d\\d".into(), prefix: "".into() }, mk(0), mk(6)]; // Num Two Id Semi
+    let mut terms: Vec<ATerm> = vec![mk(1), ATerm { name: "Two".into(), lit: None, regex: "\\d\\d".into(), prefix: "".into() }]; // Num Two (+ Id, Semi when used)
     let plain = |s: Sym, rep: Option<char>| AItem { sym: s, assign: None, rep: rep.map(|c| (c, None)) };
     let mut item_alts = vec![AAlt { items: vec![plain(Sym::T(0), None)], kind: None }, AAlt { items: vec![plain(Sym::T(1), None)], kind: None }];
     if rng.chance(0.6) {
-        item_alts.push(AAlt { items: vec![plain(Sym::T(2), None)], kind: None });
+        terms.push(mk(0));
+        item_alts.push(AAlt { items: vec![plain(Sym::T(terms.len() - 1), None)], kind: None });
     }
     if rng.chance(0.4) {
-        item_alts.push(AAlt { items: vec![plain(Sym::T(0), None), plain(Sym::T(3), None), plain(Sym::T(1), None)], kind: None });
+        terms.push(mk(6));
+        item_alts.push(AAlt { items: vec![plain(Sym::T(0), None), plain(Sym::T(terms.len() - 1), None), plain(Sym::T(1), None)], kind: None });
     }
     let rules = vec![
         ARule { name: "Body".into(), vec_ann: false, alts: vec![AAlt { items: vec![plain(Sym::N(1), Some('+'))], kind: None }] },
